@@ -1,6 +1,7 @@
 package main
 
 import (
+	"go/constant"
 	"go/ast"
 	"go/token"
 	"go/types"
@@ -617,5 +618,139 @@ func checkC06(c *Check) {
 			}
 		}
 		c.Hold("R4", "checkStates:replay-before-publish", r.FI.Decl.Pos(), msg == "", msg)
+	}
+	c06StageMemory(c)
+	c06MetadataIdentity(c)
+}
+
+// R4d: what the replay of R4 reads. checkStates replays the connection / sender stage for a lazily created state only
+// when mailFromReceived is set, and the recipient stage for the recipients in checkedRcpts. Both are written by the
+// stage functions; when a stage function can return without recording its stage (an early return for an empty check
+// list), a check that is configured only further down (a destination block) never sees the connection and the sender:
+// its verdict for those stages is never produced, hence never enforced.
+func c06StageMemory(c *Check) {
+	c.Rule("R4d", "the stage functions record their stage for later replay on every path: checkConnSender stores the sender and sets mailFromReceived before any return; checkRcpt appends the recipient to checkedRcpts on every path on which obtaining the check states succeeded", 2)
+	if r := c.need("R4d", pipelineRel, "checkRunner", "checkConnSender"); r != nil {
+		info := r.Info
+		var sender types.Object
+		if ps := r.FI.Decl.Type.Params; ps != nil {
+			for _, f := range ps.List {
+				for _, nm := range f.Names {
+					if o := info.Defs[nm]; o != nil && isStringType(o.Type()) {
+						sender = o
+					}
+				}
+			}
+		}
+		flag := r.Assigns(func(l, rhs ast.Expr) bool {
+			fv := fieldOf(info, l)
+			if fv == nil || objName(fv) != "mailFromReceived" || rhs == nil {
+				return false
+			}
+			tv, ok := info.Types[rhs]
+			return ok && tv.Value != nil && tv.Value.Kind() == constant.Bool && constant.BoolVal(tv.Value)
+		})
+		from := r.Assigns(func(l, rhs ast.Expr) bool {
+			fv := fieldOf(info, l)
+			return fv != nil && objName(fv) == "mailFrom" && rhs != nil && sender != nil && objOf(info, rhs) == sender
+		})
+		msg := ""
+		if len(flag) == 0 || len(from) == 0 {
+			msg = "the sender stage is never recorded (mailFromReceived = true, mailFrom = the sender)"
+		} else if ok, w := r.MustPass(r.Entry(), true, r.F.IsExitPt, isPt(flag)); !ok {
+			msg = "checkConnSender can return without setting mailFromReceived: a check configured only in a destination block is created later and never sees the connection and the sender – its verdict for those stages is not enforced: " + w
+		} else if ok, w := r.MustPass(r.Entry(), true, r.F.IsExitPt, isPt(from)); !ok {
+			msg = "checkConnSender can return without recording the sender for replay: " + w
+		}
+		c.Hold("R4d", "checkConnSender:recorded", r.FI.Decl.Pos(), msg == "", msg)
+	}
+	if r := c.need("R4d", pipelineRel, "checkRunner", "checkRcpt"); r != nil {
+		info := r.Info
+		var rcpt types.Object
+		if ps := r.FI.Decl.Type.Params; ps != nil {
+			for _, f := range ps.List {
+				for _, nm := range f.Names {
+					if o := info.Defs[nm]; o != nil && isStringType(o.Type()) {
+						rcpt = o
+					}
+				}
+			}
+		}
+		app := r.Assigns(func(l, rhs ast.Expr) bool {
+			fv := fieldOf(info, l)
+			if fv == nil || objName(fv) != "checkedRcpts" || rhs == nil {
+				return false
+			}
+			call, ok := ast.Unparen(rhs).(*ast.CallExpr)
+			if !ok || len(call.Args) != 2 {
+				return false
+			}
+			id, isID := call.Fun.(*ast.Ident)
+			return isID && id.Name == "append" && fieldOf(info, call.Args[0]) == fv && rcpt != nil && objOf(info, call.Args[1]) == rcpt
+		})
+		states := calling("~/" + pipelineRel + ".checkRunner.checkStates")
+		msg := ""
+		pts := r.Calls(states)
+		if len(app) == 0 || len(pts) != 1 {
+			msg = "undecided: expected one checkStates call and an append of the recipient to checkedRcpts"
+		} else {
+			call := r.CallAt(pts[0], states)
+			if found, w, decided := r.OnErr(pts[0], call, true, r.F.IsExitPt, isPt(app)); !decided {
+				msg = "the error of checkStates is not looked at"
+			} else if found {
+				msg = "checkRcpt can return without recording the recipient for replay (a check created for a later recipient never sees this one): " + w
+			}
+		}
+		c.Hold("R4d", "checkRcpt:recorded", r.FI.Decl.Pos(), msg == "", msg)
+	}
+}
+
+// R5: the quarantine flag is set on the message metadata during the body stage (applyResults) – after every target's
+// Start. A target sees it only if what it kept from Start is the very object the pipeline writes to: a copy taken at
+// Start is a snapshot from before the verdict (the queue would store, and later relay, a quarantined message as clean).
+func c06MetadataIdentity(c *Check) {
+	c.Rule("R5", "delivery targets keep the message metadata they were given at Start by reference: no implementation of DeliveryTarget.Start copies it (DeepCopy, dereference) – the quarantine verdict is written to that object later, in the body stage", 5)
+	p := c.P
+	n := 0
+	p.AllFuncs(p.ServerPkgs(), func(fi *FuncInfo) {
+		sig := fi.Obj.Type().(*types.Signature)
+		if refName(fi.Obj) != "Start" || sig.Recv() == nil || sig.Params().Len() != 3 || sig.Results().Len() != 2 {
+			return
+		}
+		mt := sig.Params().At(1).Type()
+		pt, isPtr := mt.(*types.Pointer)
+		if !isPtr || namedOf(pt.Elem()) == nil || objName(namedOf(pt.Elem()).Obj()) != "MsgMetadata" {
+			return
+		}
+		if rn := namedOf(sig.Results().At(0).Type()); rn == nil || objName(rn.Obj()) != "Delivery" {
+			return
+		}
+		n++
+		c.SawFunc(fi.Name())
+		info := fi.Info()
+		prm := sig.Params().At(1)
+		copies := copyClosure(info, fi.Decl.Body, prm)
+		msg := ""
+		ast.Inspect(fi.Decl.Body, func(x ast.Node) bool {
+			switch e := x.(type) {
+			case *ast.CallExpr:
+				if methodName(e) == "DeepCopy" {
+					if o := objOf(info, callRecv(e)); o != nil && copies[o] {
+						msg = "line " + itoa(p.Fset.Position(e.Pos()).Line) + ": the target keeps a copy of the metadata taken at Start (" + exprStr(e) + "): the Quarantine flag a body-stage check or DMARC sets afterwards is not in it – the message is stored / relayed as clean"
+					}
+				}
+			case *ast.StarExpr:
+				if o := objOf(info, e.X); o != nil && copies[o] {
+					if tv, ok := info.Types[e]; ok && !tv.IsType() {
+						msg = "line " + itoa(p.Fset.Position(e.Pos()).Line) + ": the metadata is copied by value at Start (" + exprStr(e) + "): later verdicts are not seen"
+					}
+				}
+			}
+			return true
+		})
+		c.Hold("R5", fi.Pkg.Types.Name()+"."+recvTypeName(fi.Decl)+".Start", fi.Decl.Pos(), msg == "", msg)
+	})
+	if n == 0 {
+		c.Fail("R5", "targets", token.NoPos, "undecided: no implementation of DeliveryTarget.Start found")
 	}
 }
